@@ -184,7 +184,9 @@ func (r *Run) Emit(op, obs string) {
 	r.pendFails = nil
 	if digestOut != nil && lastFix != nil && lastFix.App != nil {
 		// C12: digest of every KV store after every op of every package harness
-		fmt.Fprintf(digestOut, "op=%d %s\n", r.nOps, lastFix.StoreDigest())
+		fmt.Fprintf(digestOut, "op=%d gas=%s %s\n", r.nOps, takeGas(), lastFix.StoreDigest())
+	} else if digestOut != nil && len(opGas) > 0 {
+		fmt.Fprintf(digestOut, "op=%d gas=%s\n", r.nOps, takeGas())
 	}
 	if r.AutoClass {
 		r.Class(op, obs != "err" && obs != "bad-op")
